@@ -720,7 +720,7 @@ def finish(ctx, pid, tier, seed, t0, spec, au, cov, violations, known_hits):
         distinct += st.get('distinct', 0) + st.get('ok', 0)
     trusted = ['Coq 8.16.1 kernel (coqc); no native_compute', 'Print Assumptions: Closed under the global context for every theorem listed',
                'hand-written Gallina model tied to /repo by differential correspondence (kernel and history streams, this run)',
-               'extraction: ExtrOcamlBasic only (Extract Inductive bool/option/unit/list/prod/sumbool; no Extract Constant)',
+               'extraction: ExtrOcamlBasic only (its Extract Inductive bool/option/unit/list/prod/sumbool/sumor and Extract Inlined Constant andb => (&&), orb => (||)); no Extract directive of our own; N/positive/nat stay extracted inductives',
                'OCaml driver (parsing/printing, Zarith only for decimal conversion), Rust harness mini-chain, rustc/cargo, ocamlfind',
                'environment model (bank/staking/distribution/CosmWasm dispatch) is modelled, not verified (DESIGN.md section 7)']
     ev = {
